@@ -102,14 +102,16 @@ func (h *harness) streamHistory(n, maxSteps int) {
 		if wf {
 			exotic = 0
 		}
-		watchdog := 4 * time.Second
+		// the watchdog only bounds hangs: generous, so that a busy machine cannot turn a slow reload (fsync under
+		// load) into a verdict; a kind that hung once is not tried again in this run
+		watchdog := 30 * time.Second
 		if h.env.Thorough {
-			watchdog = 12 * time.Second
+			watchdog = 90 * time.Second
 		}
 		reKind := ""
 		if h.rng.Chance(35) {
 			reKind = h.rng.PickStr(reKinds)
-			if h.hangs[reKind] >= 2 {
+			if h.hangs[reKind] >= 1 {
 				reKind = ""
 			}
 		}
